@@ -33,6 +33,10 @@ def fault_scenarios(tier):
                                 for exc in ("value", "keyboard", "genexit", "sysexit") + (("cancelled",) if a else ()):
                                     out.append({"async": a, "mode": mode, "retry": retry, "max_attempts": 2, "ops": ops, "pre": pre,
                                                 "fault": {"where": where, "nth": nth, "exc": exc}})
+                        # no fault at all, with the degenerate retry configurations (max_attempts = 0: the operation is never
+                        # invoked and the outcome carries no class; 1: no retry is ever granted)
+                        for ma in (0, 1, 2):
+                            out.append({"async": a, "mode": mode, "retry": retry, "max_attempts": ma, "ops": ops, "pre": pre, "fault": None})
     return out
 
 
@@ -48,8 +52,10 @@ def fault_oracle(sc, r):
     if log[0][0] != "allow":
         return f"the call did not ask for admission first: {log[:2]}"
     settles = [e for e in log[1:] if e[0] in ("success", "failure", "cancel")]
-    what = f"{'async ' if sc['async'] else ''}{sc['mode']}() {'with' if sc['retry'] else 'without'} retry, {sc['fault']['exc']} raised by " \
-           f"invocation {sc['fault']['nth']} of {sc['fault']['where']}, breaker {sc['pre']} at admission: ended with {r['end'][:2]}"
+    fl = sc.get("fault")
+    what = f"{'async ' if sc['async'] else ''}{sc['mode']}() {'with' if sc['retry'] else 'without'} retry (max_attempts={sc['max_attempts']}), " + \
+           (f"{fl['exc']} raised by invocation {fl['nth']} of {fl['where']}" if fl else "no fault injected") + \
+           f", breaker {sc['pre']} at admission: ended with {r['end'][:2]}"
     if log[0][1] and not settles:
         return what + "; the admitted call never told the breaker that it is over"
     if not log[0][1] and settles:
@@ -65,7 +71,7 @@ def fault_part(chk):
     scs = fault_scenarios(chk.tier)
     res = common.run_driver("c08_fault_driver", scs, jobs=8)
     bad = [(s, r, m) for s, r in zip(scs, res) for m in [fault_oracle(s, r)] if m]
-    fired = sum(1 for s, r in zip(scs, res) if r["end"][0] == "raise" or r["counts"].get(s["fault"]["where"], 0) >= s["fault"]["nth"])
+    fired = sum(1 for s, r in zip(scs, res) if s.get("fault") and (r["end"][0] == "raise" or r["counts"].get(s["fault"]["where"], 0) >= s["fault"]["nth"]))
     chk.coverage["fault_injection_outside_model"] = {
         "scenarios": len(scs), "fault_reached": fired, "sites": list(FAULT_SITES),
         "note": "oracle only (no theorem covers raising callbacks other than before_sleep/sleeper): admitted => settled, no probe left "
